@@ -13,6 +13,12 @@ package omniwitness
 //@   // every configured log has its entry: ID(origin) -> {verifier made from that log's key, that log's origin}
 //@   ensures[C02.n,C12.k] err == nil ==> (forall j int :: 0 <= j && j < len(logs) ==> ID(logs[j].Origin) in m && m[ID(logs[j].Origin)].Origin == logs[j].Origin
 //@                        && m[ID(logs[j].Origin)].SigV == verifierFor(logs[j].PublicKey) && verifierOK(logs[j].PublicKey))
+//@   // no entry without a configured log: every entry's origin is the origin of some configured log (Skolem form: G_origin stands
+//@   // for the configured origins, srcIdx(o) for the least index at which o is configured)
+//@   let cfgFixed := forall j int :: 0 <= j && j < len(logs) ==> G_origin(j) == logs[j].Origin
+//@   ensures[C02.x] err == nil && cfgFixed ==> (forall k string :: k in m ==> 0 <= srcIdx(m[k].Origin) && srcIdx(m[k].Origin) < len(logs) && G_origin(srcIdx(m[k].Origin)) == m[k].Origin)
+//@   hint#1 srcIdx_def($i - 1, logs[$i - 1].Origin)
+//@   invariant#1 cfgFixed ==> (forall k string :: k in logMap ==> 0 <= srcIdx(logMap[k].Origin) && srcIdx(logMap[k].Origin) < $i && G_origin(srcIdx(logMap[k].Origin)) == logMap[k].Origin)
 //@   // two configured logs that would share an ID are refused
 //@   ensures[C12.d] err == nil ==> (forall a int, b int :: 0 <= a && a < b && b < len(logs) ==> ID(logs[a].Origin) != ID(logs[b].Origin))
 //@   ensures[C12.d] err != nil ==> m == nil
